@@ -468,6 +468,43 @@ class Tracer:
             out.append(a.z3(self) if tk in (True, None) else a.z3neg(self))
         return out
 
+    def pc_z3_linear(self):
+        """the linear atoms of the path condition only (a weakening of the path condition)"""
+        out = []
+        for a, tk in self.decisions:
+            if a.p.degree() <= 1:
+                out.append(a.z3(self) if tk in (True, None) else a.z3neg(self))
+        return out
+
+    def has_nonlinear_pc(self):
+        return any(a.p.degree() > 1 for a, _ in self.decisions)
+
+    def check_fresh(self, *assertions, timeout_ms=20000):
+        """one-shot query on a fresh solver (keeps the exploration solver free of the
+        obligation's extra variables and non-linear atoms)"""
+        t0 = time.time()
+        s = z3.Solver()
+        s.set("timeout", timeout_ms)
+        for a in self.domain:
+            s.add(a.z3(self))
+        for e in assertions:
+            s.add(e)
+        r = s.check()
+        m = s.model() if r == z3.sat else None
+        self.nqueries += 1
+        self.tsolve += time.time() - t0
+        r = str(r)
+        self.q_by_answer[r] = self.q_by_answer.get(r, 0) + 1
+        return r, m
+
+    def check_pc(self, formula, timeout_ms=20000):
+        """decide PC & formula; tries the linear weakening of PC first (unsat there => unsat)"""
+        if self.has_nonlinear_pc():
+            r, m = self.check_fresh(*self.pc_z3_linear(), formula, timeout_ms=timeout_ms)
+            if r == "unsat":
+                return r, m
+        return self.check_fresh(*self.pc_z3(), formula, timeout_ms=timeout_ms)
+
     def model_env(self, m, n=None):
         env = []
         for v in self.zvars[: (n or self.nvars)]:
